@@ -316,6 +316,7 @@ def run_scripts(scripts, servertype, timeout, seed, full=False):
             # the application's disconnect hook fails in every third script (both servers log that and go on)
             nscript[0] += 1
             lab.hook_raises = nscript[0] % 3 == 2
+            lab.config.LOGWIRE = nscript[0] % 2 == 1     # (every other script with wire-level logging switched on)
             att = {1: Attacker(), 2: Attacker()}
             stalled = []
             w = blocker = None
